@@ -17,3 +17,17 @@ pub fn zip3<A: Copy, B: Copy, C: Copy>(a: &Vec<A>, b: &Vec<B>, c: &Vec<C>) -> (r
     ensures r.len() == (if a.len() <= b.len() && a.len() <= c.len() { a.len() } else if b.len() <= c.len() { b.len() } else { c.len() }),
         forall|k: int| 0 <= k < r.len() ==> (#[trigger] r[k]).0 == a[k] && r[k].1 == b[k] && r[k].2 == c[k]
 { a.iter().zip(b.iter()).zip(c.iter()).map(|((x, y), z)| (*x, *y, *z)).collect() }
+// HashMap::iter(): SOME enumeration of the entries, each exactly once (the order is universally quantified)
+#[verifier::external_body]
+pub fn hashmap_iter_collect<'a, K, V>(m: &'a HashMap<K, V>) -> (r: Vec<(&'a K, &'a V)>)
+    ensures
+        forall|j: int| 0 <= j < r.len() ==> m@.contains_key(*(#[trigger] r[j]).0) && m@[*r[j].0] == *r[j].1,
+        forall|k: K| m@.contains_key(k) ==> exists|j: int| 0 <= j < r.len() && *(#[trigger] r[j]).0 == k,
+        forall|i: int, j: int| 0 <= i < j < r.len() ==> *(#[trigger] r[i]).0 != *(#[trigger] r[j]).0,
+{ m.iter().collect() }
+// T4: Clone returns a value equal to the original (derived Clone on messages, std Clone on String/Vec/Option/HashMap)
+pub trait VClone: Sized { fn vclone(&self) -> Self; }
+impl<T: Clone> VClone for T {
+    #[verifier::external_body]
+    fn vclone(&self) -> (r: T) ensures r == *self { self.clone() }
+}
